@@ -156,6 +156,8 @@ structure CmpImpl where
   op : CmpOp
   name : String
   generics : Generics
+  /-- the generics with `Self` expanded, as used in `impl<…>` -/
+  xgenerics : Generics
   wc : WCB
   body : CmpBody
 deriving Inhabited
@@ -202,19 +204,21 @@ def cmpVariant (op : CmpOp) (v : VariantE) : R (VariantE × List CmpField) := do
 /-- `build_compare_op`, decisions and where-clause -/
 def buildCmp (op : CmpOp) (src : Source) (e : Entry) (h : HAttrs) : R CmpImpl := do
   let kind := Kind.cmp op
-  let w := WCB.new src.generics
+  -- `Self` is expanded in the generics the impl (and the `Eq` checker) use
+  let xg := src.generics.expandSelf (thisTy src.name src.generics)
+  let w := WCB.new xg
   let (w, use) := e.pushBoundsToWith h kind w
   match src with
   | .struct_ name g fields =>
     let fs ← cmpFields op fields
     let w := cmpFieldsBounds op fs use w
-    pure { op, name, generics := g, wc := w, body := .struct_ fs }
+    pure { op, name, generics := g, xgenerics := xg, wc := w, body := .struct_ fs }
   | .enum_ name g variants =>
     let vs ← variants.mapM (cmpVariant op)
     let w := vs.foldl (init := w) fun w (v, fs) =>
       let (w, u) := v.h.pushBoundsTo use kind w
       cmpFieldsBounds op fs u w
-    pure { op, name, generics := g, wc := w, body := .enum_ vs }
+    pure { op, name, generics := g, xgenerics := xg, wc := w, body := .enum_ vs }
 
 /-! ## Rendering -/
 
@@ -246,6 +250,9 @@ def orderingEqual : Toks := absPath ["core", "cmp", "Ordering", "Equal"]
 def coreFn : Toks := absPath ["core", "ops", "Fn"]
 
 def refTy (ty : Ty) : Toks := "&" :: ty.toks
+/-- `&__T`: the helper functions are generic over the field type -/
+def refT : Toks := ["&", "__T"]
+def helperT : Toks := angle (["__T", ":", "?"] ++ absPath ["core", "marker", "Sized"])
 
 /-- `{ fn id(params) ret { body } id(args) }` -/
 def helperFnBlock (id : Tok) (generics : Toks) (params : List Toks) (ret : Toks) (body : Toks) (args : List Toks) : Toks :=
@@ -256,30 +263,29 @@ def ufcs2 (path : List String) (a b : Toks) : Toks :=
 
 def peExpr (k : SrcKind) (cf : CmpField) : Toks :=
   let f := cf.f
-  let ty := f.field.ty
   let id := f.makeIdent "__eq_"
   let this := selfOf k f
   let other := otherOf k f
   let args (e : Toks) : List Toks := ["&" :: this, "&" :: other, e]
   match cf.sel with
   | .by_ .partialOrd e =>
-    helperFnBlock id []
-      [["this", ":"] ++ refTy ty, ["other", ":"] ++ refTy ty,
-       ["partial_cmp", ":", "impl", "Fn"] ++ paren (refTy ty ++ "," :: refTy ty) ++ "->" :: optOrdering]
+    helperFnBlock id helperT
+      [["this", ":"] ++ refT, ["other", ":"] ++ refT,
+       ["partial_cmp", ":", "impl"] ++ coreFn ++ paren (refT ++ "," :: refT) ++ "->" :: optOrdering]
       ["->", "bool"]
       (["partial_cmp"] ++ paren ["this", ",", "other"] ++ "==" :: someEqual)
       (args e)
   | .by_ .ord e =>
-    helperFnBlock id []
-      [["this", ":"] ++ refTy ty, ["other", ":"] ++ refTy ty,
-       ["cmp", ":", "impl"] ++ coreFn ++ paren (refTy ty ++ "," :: refTy ty) ++ "->" :: ordering]
+    helperFnBlock id helperT
+      [["this", ":"] ++ refT, ["other", ":"] ++ refT,
+       ["cmp", ":", "impl"] ++ coreFn ++ paren (refT ++ "," :: refT) ++ "->" :: ordering]
       ["->", "bool"]
       (["cmp"] ++ paren ["this", ",", "other"] ++ "==" :: orderingEqual)
       (args e)
   | .by_ _ e =>
-    helperFnBlock id []
-      [["this", ":"] ++ refTy ty, ["other", ":"] ++ refTy ty,
-       ["eq", ":", "impl"] ++ coreFn ++ paren (refTy ty ++ "," :: refTy ty) ++ ["->", "bool"]]
+    helperFnBlock id helperT
+      [["this", ":"] ++ refT, ["other", ":"] ++ refT,
+       ["eq", ":", "impl"] ++ coreFn ++ paren (refT ++ "," :: refT) ++ ["->", "bool"]]
       ["->", "bool"]
       (["eq"] ++ paren ["this", ",", "other"])
       (args e)
@@ -287,7 +293,7 @@ def peExpr (k : SrcKind) (cf : CmpField) : Toks :=
   | .dflt => ufcs2 ["core", "cmp", "PartialEq", "eq"] this other
 
 def eqChecker (this : Toks) : Toks :=
-  brace (["fn", "_eq", "<", "T", ":", "Eq", "+", "?", "Sized", ">"] ++ paren ["_this", ":", "&", "T"] ++ brace [] ++
+  brace (["fn", "_eq", "<", "T", ":"] ++ absPath ["core", "cmp", "Eq"] ++ ["+", "?"] ++ absPath ["core", "marker", "Sized"] ++ [">"] ++ paren ["_this", ":", "&", "T"] ++ brace [] ++
     "_eq" :: paren ("&" :: paren this))
 
 def eqExpr (k : SrcKind) (cf : CmpField) : Toks :=
@@ -299,23 +305,22 @@ def eqExpr (k : SrcKind) (cf : CmpField) : Toks :=
 
 def poExpr (k : SrcKind) (cf : CmpField) : Toks :=
   let f := cf.f
-  let ty := f.field.ty
   let id := f.makeIdent "__partial_ord_"
   let this := selfOf k f
   let other := otherOf k f
   let args (e : Toks) : List Toks := ["&" :: this, "&" :: other, e]
   let e0 := match cf.sel with
     | .by_ .ord e =>
-      helperFnBlock id []
-        [["this", ":"] ++ refTy ty, ["other", ":"] ++ refTy ty,
-         ["cmp", ":", "impl", "Fn"] ++ paren (refTy ty ++ "," :: refTy ty) ++ "->" :: ordering]
+      helperFnBlock id helperT
+        [["this", ":"] ++ refT, ["other", ":"] ++ refT,
+         ["cmp", ":", "impl"] ++ coreFn ++ paren (refT ++ "," :: refT) ++ "->" :: ordering]
         ("->" :: optOrdering)
         (absPath ["core", "option", "Option", "Some"] ++ paren ("cmp" :: paren ["this", ",", "other"]))
         (args e)
     | .by_ _ e =>
-      helperFnBlock id []
-        [["this", ":"] ++ refTy ty, ["other", ":"] ++ refTy ty,
-         ["partial_cmp", ":", "impl", "Fn"] ++ paren (refTy ty ++ "," :: refTy ty) ++ "->" :: optOrdering]
+      helperFnBlock id helperT
+        [["this", ":"] ++ refT, ["other", ":"] ++ refT,
+         ["partial_cmp", ":", "impl"] ++ coreFn ++ paren (refT ++ "," :: refT) ++ "->" :: optOrdering]
         ("->" :: optOrdering)
         ("partial_cmp" :: paren ["this", ",", "other"])
         (args e)
@@ -327,15 +332,14 @@ def poExpr (k : SrcKind) (cf : CmpField) : Toks :=
 
 def ordExpr (k : SrcKind) (cf : CmpField) : Toks :=
   let f := cf.f
-  let ty := f.field.ty
   let id := f.makeIdent "__ord_"
   let this := selfOf k f
   let other := otherOf k f
   let e0 := match cf.sel with
     | .by_ _ e =>
-      helperFnBlock id []
-        [["this", ":"] ++ refTy ty, ["other", ":"] ++ refTy ty,
-         ["cmp", ":", "impl", "Fn"] ++ paren (refTy ty ++ "," :: refTy ty) ++ "->" :: ordering]
+      helperFnBlock id helperT
+        [["this", ":"] ++ refT, ["other", ":"] ++ refT,
+         ["cmp", ":", "impl"] ++ coreFn ++ paren (refT ++ "," :: refT) ++ "->" :: ordering]
         ("->" :: ordering)
         ("cmp" :: paren ["this", ",", "other"])
         ["&" :: this, "&" :: other, e]
@@ -348,14 +352,13 @@ def hashStmt (x : Toks) : Toks :=
 
 def hashExpr (k : SrcKind) (cf : CmpField) : Toks :=
   let f := cf.f
-  let ty := f.field.ty
   let id := f.makeIdent "__hash_"
   let this := selfOf k f
   match cf.sel with
   | .by_ _ e =>
-    helperFnBlock id (angle ("H" :: ":" :: absPath ["core", "hash", "Hasher"]))
-      [["this", ":"] ++ refTy ty, ["state", ":", "&", "mut", "H"],
-       ["hash", ":", "impl", "Fn"] ++ paren (refTy ty ++ [",", "&", "mut", "H"])]
+    helperFnBlock id (angle (["__T", ":", "?"] ++ absPath ["core", "marker", "Sized"] ++ "," :: "__H" :: ":" :: absPath ["core", "hash", "Hasher"]))
+      [["this", ":"] ++ refT, ["state", ":", "&", "mut", "__H"],
+       ["hash", ":", "impl"] ++ coreFn ++ paren (refT ++ [",", "&", "mut", "__H"])]
       []
       ("hash" :: paren ["this", ",", "state"])
       ["&" :: this, ["state"], e]
@@ -367,7 +370,7 @@ def toIndexFn (vs : List VariantE) : Toks :=
   ["let", "to_index", "=", "|", "this", ":", "&", "Self", "|", "->", "usize"] ++
     brace ("match" :: "this" :: brace (
       (vs.zipIdx.flatMap fun (v, i) => paren v.makePatWildcard ++ ["=>", toString i ++ "usize", ","]) ++
-      ["_", "=>", "unreachable", "!", "(", ")", ","])) ++ [";"]
+      ("_" :: "=>" :: absPath ["core", "unreachable"] ++ ["!", "(", ")", ","]))) ++ [";"]
 
 def poStep (e : Toks) : Toks :=
   "match" :: e ++ brace (someEqual ++ ["=>", "{", "}", "o", "=>", "return", "o", ","])
@@ -377,7 +380,7 @@ def ordStep (e : Toks) : Toks :=
 /-- the body of `build_from_fields` for one field list -/
 def cmpFieldsBody (op : CmpOp) (k : SrcKind) (fs : List CmpField) : Toks :=
   match op with
-  | .partialEq => if fs.isEmpty then ["true"] else sepBy "&&" (fs.map (peExpr k))
+  | .partialEq => if fs.isEmpty then ["true"] else sepBy "&&" (fs.map fun cf => paren (peExpr k cf))
   | .eq => fs.flatMap (eqExpr k)
   | .partialOrd => (fs.flatMap fun cf => poStep (poExpr k cf)) ++ someEqual
   | .ord => (fs.flatMap fun cf => ordStep (ordExpr k cf)) ++ orderingEqual
@@ -411,7 +414,7 @@ def CmpImpl.inner (c : CmpImpl) : Toks :=
     | .hash =>
       "match" :: "self" :: brace (
         (vs.flatMap fun (v, fs) => v.makePat "_self" ++ "=>" :: brace (cmpFieldsBody .hash .enum_ fs)) ++
-        ["_", "=>", "unreachable", "!", "(", ")", ","])
+        ("_" :: "=>" :: absPath ["core", "unreachable"] ++ ["!", "(", ")", ","]))
 
 def cmpAttrs : Toks :=
   attrToks ["automatically_derived"] ++ attrToks ("allow" :: paren ["clippy", "::", "double_parens"]) ++
@@ -423,7 +426,7 @@ def cmpAllowAttrs : Toks :=
 def CmpImpl.render (c : CmpImpl) : List Toks :=
   let trait_ := c.op.path
   let wheres := c.wc.build (fun ty => ty.toks ++ ":" :: trait_)
-  let implG := c.generics.implToks
+  let implG := c.xgenerics.implToks
   let head (body : Toks) : Toks :=
     cmpAttrs ++ "impl" :: implG ++ trait_ ++ "for" :: c.thisTy ++ wheres ++ brace body
   match c.op with
@@ -434,8 +437,8 @@ def CmpImpl.render (c : CmpImpl) : List Toks :=
   | .ord =>
     [head (["fn", "cmp"] ++ paren ["&", "self", ",", "other", ":", "&", "Self"] ++ "->" :: ordering ++ brace c.inner)]
   | .hash =>
-    [head (["fn", "hash"] ++ angle ("H" :: ":" :: absPath ["core", "hash", "Hasher"]) ++
-      paren ["&", "self", ",", "state", ":", "&", "mut", "H"] ++ brace c.inner)]
+    [head (["fn", "hash"] ++ angle ("__H" :: ":" :: absPath ["core", "hash", "Hasher"]) ++
+      paren ["&", "self", ",", "state", ":", "&", "mut", "__H"] ++ brace c.inner)]
   | .eq =>
     [head [],
      ["const", "_", ":", "(", ")", "="] ++ brace (cmpAllowAttrs ++ "fn" :: "_f" :: implG ++
